@@ -8,6 +8,7 @@ Requests
   c19.check <env> <graph> <table> (reach…) <ins> <outs> <clos> (W…) (S…)
       -> (check (fix b) (cover b) (taint b) (miss q…))
   c19.taint <env> <graph> <table> (reach…) <ins> (seeds…)  -> (taint (least x…) (miss q…))
+  c19.why <env> <graph> <table> (reach…) <ins> (W…)  -> (why (unsupported reason…) (taint reason…))
 The resolver is replayed from <table>; a query the table does not contain is answered with the marker type
 `other "MISS<query>"`, which surfaces in the output and is reported under `miss` so that the harness can add the entry. -/
 namespace Malt.Drv.C19
@@ -141,6 +142,7 @@ def Query.toSexp (q : Query) : Sexp :=
   | "call", _, ft :: rest => .list [.atom "call", Sexp.ofNat q.id, setSexp ft, sets (rest.take q.nargs), sets (rest.drop q.nargs)]
   | "compare", _, t :: rest => .list [.atom "compare", Sexp.ofNat q.id, setSexp t, sets rest]
   | "unop", _, [t] => .list [.atom "unop", Sexp.ofNat q.id, setSexp t]
+  | "attr", _, [t] => .list [.atom "attr", Sexp.ofNat q.id, setSexp t]
   | "listlit", _, ts => .list [.atom "listlit", sets ts]
   | k, _, [a, b] => .list [.atom k, Sexp.ofNat q.id, setSexp a, setSexp b]
   | k, _, _ => .list [.atom k, .atom "?"]
@@ -161,6 +163,7 @@ def query? : Sexp → Option Query
   | .list [.atom "compare", i, t, ts] => do
       pure { kind := "compare", id := (← i.nat?), tys := (← set? t) :: (← sets? ts) }
   | .list [.atom "unop", i, t] => do pure { kind := "unop", id := (← i.nat?), tys := [← set? t] }
+  | .list [.atom "attr", i, t] => do pure { kind := "attr", id := (← i.nat?), tys := [← set? t] }
   | .list [.atom "listlit", ts] => do pure { kind := "listlit", tys := (← sets? ts) }
   | .list [.atom k, i, a, b] =>
       if k == "sliceidx" || k == "slice" || k == "binop" then do
@@ -201,6 +204,7 @@ def replay (tbl : Table) : Resolver where
   unop i T := ask tbl { kind := "unop", id := i, tys := [some T] }
   binop i L R := ask tbl { kind := "binop", id := i, tys := [some L, some R] }
   listLit ts := ask tbl { kind := "listlit", tys := ts }
+  attr i T := ask tbl { kind := "attr", id := i, tys := [some T] }
 
 /-! ### misses -/
 
@@ -224,6 +228,97 @@ def overrideAnnos (l : List (Nat × TySet)) : List (Nat × TySet) :=
   -- a later annotation of the same node overrides an earlier one
   let ids := l.foldl (fun acc p => if acc.contains p.1 then acc else acc ++ [p.1]) []
   ids.filterMap fun i => (l.reverse.find? (fun p => p.1 == i)).map fun p => (i, p.2)
+
+
+/-! ### why a function is outside the fully proved fragment -/
+
+def exprKind : Expr → String
+  | .name .. => "name" | .const .. => "const" | .attr .. => "attribute" | .subscript .. => "subscript"
+  | .call .. => "call" | .keyword .. => "keyword" | .boolop .. => "boolop" | .unary .. => "unaryop"
+  | .binop .. => "binop" | .compare .. => "compare" | .ifexp .. => "ifexp" | .lambda .. => "lambda"
+  | .seq _ .tuple _ _ => "tuple" | .seq _ .list _ _ => "list" | .seq _ .set _ _ => "set-literal"
+  | .starred .. => "starred" | .namedexpr .. => "namedexpr" | .comp .. => "comprehension"
+  | .comprehension .. => "comprehension" | .arguments .. => "arguments" | .arg .. => "arg"
+  | .withitem .. => "withitem" | .noneMarker => "none" | .other _ k _ _ => k
+
+mutual
+/-- The unsupported sub-expressions of an expression (first offending node of each branch). -/
+partial def whyE (e : Expr) : List String :=
+  if suppE e then [] else
+  match e with
+  | .seq _ .tuple es _ => whyEs es
+  | .seq _ .list es _ => whyEs es
+  | .attr _ v _ _ => whyE v
+  | .call _ f a k => (if calleeOk f then [] else ["call-of-subscript"]) ++ whyE f ++ whyEs a ++ whyEs k
+  | .keyword _ _ _ v => whyE v
+  | .subscript _ v s _ => whyE v ++ whyE s
+  | .compare _ l _ rs => whyE l ++ whyEs rs
+  | .binop _ _ l r => whyE l ++ whyE r
+  | .unary _ _ x => whyE x
+  | .boolop _ _ vs => whyEs vs
+  | .ifexp _ a b c => whyE a ++ whyE b ++ whyE c
+  | .starred _ v c => if c == .store then ["starred-target-of-non-name"] else whyE v
+  | .other _ k _ kids => if otherKindOk k then whyEs kids else [k]
+  | .comp _ _ es gs => whyEs es ++ whyEs gs
+  | .comprehension _ t it ifs _ => whyE t ++ whyE it ++ whyEs ifs
+  | x => [exprKind x]
+partial def whyEs (es : List Expr) : List String := es.flatMap whyE
+end
+
+def stmtKind : Stmt → String
+  | .functionDef .. => "def" | .classDef .. => "class" | .ret .. => "return" | .delete .. => "del"
+  | .assign .. => "assign" | .augAssign .. => "augassign" | .annAssign .. => "annassign" | .for_ .. => "for"
+  | .while_ .. => "while" | .if_ .. => "if" | .with_ .. => "with" | .raise .. => "raise" | .try_ .. => "try"
+  | .handler .. => "except" | .assert_ .. => "assert" | .import_ .. => "import" | .importFrom .. => "import"
+  | .global .. => "global" | .nonlocal .. => "nonlocal" | .expr .. => "expr" | .pass _ => "pass"
+  | .break_ _ => "break" | .continue_ _ => "continue" | .other _ k _ _ => k
+
+def whyArg : Expr → List String
+  | .arg _ _ [] => []
+  | .arg _ _ [.name ..] => []
+  | .arg .. => ["parameter-annotation-not-a-name"]
+  | _ => ["parameter"]
+
+/-- Why the model does not cover a node (empty = covered). -/
+def whyN (n : CNode) : List String :=
+  if suppN n then [] else
+  match n with
+  | .stmt (.assign _ ts v) => whyEs ts ++ whyE v
+  | .stmt (.expr _ v) => whyE v
+  | .stmt (.ret _ vs) => whyEs vs
+  | .stmt (.augAssign _ t _ v) => whyE t ++ whyE v
+  | .stmt (.assert_ _ t m) => whyE t ++ whyEs m
+  | .stmt (.raise _ e c) => whyEs e ++ whyEs c
+  | .stmt (.functionDef _ _ _ _ d r _) =>
+      (if d.isEmpty then [] else ["decorated-def"]) ++
+      (match r with | [] => [] | [.name ..] => [] | _ => ["return-annotation-not-a-name"])
+  | .stmt s => ["stmt:" ++ stmtKind s]
+  | .expr (.arguments _ po ar va ko kd kw df) =>
+      (po ++ ar ++ va ++ ko ++ kw).flatMap whyArg ++ whyEs kd ++ whyEs df
+  | .expr (.withitem _ c vars) => whyE c ++ whyEs vars
+  | .expr e => whyE e
+  | .forIter t it => whyE t ++ whyE it
+
+/-- Root causes of taint at a node under types_in = tin (not propagation). -/
+def taintWhy (R : Resolver) (env : FnEnv) (tin : TMap) (n : CNode) : List String :=
+  let nl := if (storedN n).any (fun x => env.nonlocals.contains x) then ["nonlocal-store"] else []
+  nl ++ match n with
+  | .stmt (.assign _ targets value) =>
+      if (untrackedAllT R (tyE R env tin value) targets).isEmpty then []
+      else match tyE R env tin value with
+        | none => ["untyped-value:" ++ (match value with
+                     | .call _ (.name _ f _) _ _ => if env.bound.contains f then "call-of-untyped-local" else "call-unknown-result"
+                     | .name .. => "name-of-unknown-type"
+                     | v => exprKind v)]
+        | some _ => if targets.any (fun t => match t with | .seq _ _ es _ => es.any isStarred | _ => false)
+                    then ["starred-pattern"] else ["pattern-element-unknown"]
+  | .stmt (.augAssign ..) => ["augassign"]
+  | .stmt (.annAssign ..) => ["annassign"]
+  | .expr (.arguments i a b c d e f g) =>
+      if (untrackedArgs R env (argNodes (.arguments i a b c d e f g))).isEmpty then [] else ["untyped-parameter"]
+  | .expr (.withitem _ _ vars) => if (storedEs vars).isEmpty then [] else ["with-as"]
+  | .forIter .. => ["for-target"]
+  | _ => []
 
 def run (f : Option String) : String := f.getD "bad-args"
 
@@ -262,6 +357,22 @@ def handlers : List (String × (List Sexp → String)) := [
       pure (toString (Sexp.list [.atom "taint",
         .list [.atom "least", Sexp.ofStrs (leastTaint R env G reach ins (seeds.length + env.bound.length + 2) seeds)],
         missSexp misses]))),
+  ("c19.why", fun a => run do
+      let [e, g, t, reach, ins, w] := a | none
+      let env ← env? e
+      let G ← graph? g
+      let tbl ← table? t
+      let R := replay tbl
+      let reach ← nats? reach
+      let ins ← nmap? ins
+      let W ← strs? w
+      let nodes := reach.filterMap G.find
+      let unsup := dedupS (nodes.flatMap fun n => whyN n.node)
+      let taint := dedupS ((if W.isEmpty then [] else ["local-call-rebinds-nonlocal"]) ++
+        nodes.flatMap fun n => taintWhy R env (ins.get n.id) n.node)
+      let misses := nodes.flatMap fun n => tmapMisses (transfer R env n.node (ins.get n.id))
+      pure (toString (Sexp.list [.atom "why", .list (.atom "unsupported" :: unsup.map .atom),
+        .list (.atom "taint" :: taint.map .atom), missSexp misses]))),
   ("c19.check", fun a => run do
       let [e, g, t, reach, ins, outs, clos, w, s] := a | none
       let env ← env? e
